@@ -63,6 +63,7 @@ func (c06) Gen(r *rand.Rand, tier string, idx int) *core.Plan {
 	w["ctor"] = int64(r.IntN(2))                    // NewVerifierWithOptions / the deprecated NewWithOptions
 	w["nb"] = int64(core.Pick(r, 0, 0, 0, 1, 2, 3)) // which certificate (leaf / intermediate / root) becomes valid only 10 minutes after signing
 	w["expiryB"] = int64(r.IntN(3))
+	w["bToken"] = int64(r.IntN(2))
 	w["expiryAction"] = int64(core.Pick(r, 0, 0, 1)) // log (both validations always reported) / enforce (a failed expiry ends the verification)
 	n := 1 + r.IntN(6)
 	for i := 0; i < n; i++ {
@@ -257,6 +258,18 @@ func (l c06) Exec(env *core.Env) *core.Result {
 			res.Violate("HARNESS/sign", "second", "sign: %v", err)
 			return
 		}
+		// ... or with the countersignature lifted from the first one: a genuine token of the trusted TSA, over
+		// another signature value (what anyone holding the first, public, signature can attach)
+		if w["bToken"] == 1 && scheme == signature.SigningSchemeX509 && counter != 0 && counter != 11 {
+			if envA, perr := signature.ParseEnvelope(format, sigA.bytes); perr == nil {
+				if cA, cerr := envA.Content(); cerr == nil && len(cA.SignerInfo.UnsignedAttributes.TimestampSignature) > 0 {
+					if out, ok := world.SetTimestampSignature(format, sigB.bytes, cA.SignerInfo.UnsignedAttributes.TimestampSignature); ok {
+						sigB.bytes, sigB.counter, sigB.gen = out, 2, sigA.gen
+						res.Probe("second_signature_carries_the_first_one_s_countersignature")
+					}
+				}
+			}
+		}
 		sigs := []*c06Sig{sigA, sigB}
 		// stores and validators
 		store := world.NewScriptedStore()
@@ -328,7 +341,7 @@ func (l c06) Exec(env *core.Env) *core.Result {
 			instants = append(instants, c06Instant{t, int(op.Int(2) % 2)})
 		}
 		sort.SliceStable(instants, func(i, j int) bool { return instants[i].at.Before(instants[j].at) })
-		config := fmt.Sprintf("nb=%d scheme=%d fmt=%d ends=%d/%d/%d expiry=%d tsaMode=%d counter=%d skew=%d acc=%d.%03d rogue=%d", w["nb"], w["scheme"], w["format"], w["leafEnd"], w["interEnd"], w["rootEnd"], w["expiry"], tsaMode, counter, w["skew"], w["accuracy"], w["accMillis"], w["rogue"])
+		config := fmt.Sprintf("nb=%d scheme=%d fmt=%d ends=%d/%d/%d expiry=%d tsaMode=%d counter=%d skew=%d acc=%d.%03d rogue=%d bToken=%d", w["nb"], w["scheme"], w["format"], w["leafEnd"], w["interEnd"], w["rootEnd"], w["expiry"], tsaMode, counter, w["skew"], w["accuracy"], w["accMillis"], w["rogue"], w["bToken"])
 		for _, inst := range instants {
 			at := inst.at
 			if d := at.Sub(time.Now()); d > 0 {
